@@ -7,6 +7,7 @@
 // reports any panic of a decoder (oracle, independent of the model).
 //
 //	ops:  ssv|qmsg|signed|psig|psigs|spsig <bytes>     -> err | ok <fields>
+//	      encqmsg <type> <height> <round> <id> <root> <dataRound> <rcj> <pj>  -> bytes of the real qbft.Message.MarshalSSZ
 //	      encssv <type> <id> <data>                      -> bytes of the real SSVMessage.Encode
 //	      encspsig <sig> <signer> <type> <slot> <psig>*  -> bytes of the real SignedPartialSignatureMessage.Encode
 //	<bytes> = chunks joined by '+': hex | zN (N zero bytes) | -
@@ -250,6 +251,34 @@ func doLine(run *hx.Run, l string) {
 		m := &spectypes.SSVMessage{MsgType: spectypes.MsgType(t), Data: data}
 		copy(m.MsgID[:], id)
 		enc, err := m.Encode()
+		if err != nil {
+			run.Emit(l, "err")
+			return
+		}
+		run.Emit(l, rb(enc))
+	case "encqmsg":
+		if len(f) != 9 {
+			run.Emit(l, "bad-op")
+			return
+		}
+		u := func(s string) uint64 { v, _ := strconv.ParseUint(s, 10, 64); return v }
+		lst := func(s string) [][]byte {
+			if s == "[]" {
+				return nil
+			}
+			var out [][]byte
+			for _, x := range strings.Split(s, ",") {
+				b, _ := parseBytes(x)
+				out = append(out, b)
+			}
+			return out
+		}
+		id, _ := parseBytes(f[4])
+		root, _ := parseBytes(f[5])
+		m := &specqbft.Message{MsgType: specqbft.MessageType(u(f[1])), Height: specqbft.Height(u(f[2])), Round: specqbft.Round(u(f[3])),
+			Identifier: id, DataRound: specqbft.Round(u(f[6])), RoundChangeJustification: lst(f[7]), PrepareJustification: lst(f[8])}
+		copy(m.Root[:], root)
+		enc, err := m.MarshalSSZ()
 		if err != nil {
 			run.Emit(l, "err")
 			return
@@ -504,7 +533,22 @@ func main() {
 				doLine(run, fmt.Sprintf("encssv %d %s %s", uint64(m.MsgType), fmtBytes(m.MsgID[:]), fmtBytes(m.Data)))
 			}
 		case "qmsg":
-			enc = must(genQMsg(r).MarshalSSZ())
+			q := genQMsg(r)
+			enc = must(q.MarshalSSZ())
+			if r.Chance(25) { // encoder tie
+				ls := func(l [][]byte) string {
+					if len(l) == 0 {
+						return "[]"
+					}
+					s := make([]string, len(l))
+					for i, x := range l {
+						s[i] = fmtBytes(x)
+					}
+					return strings.Join(s, ",")
+				}
+				doLine(run, fmt.Sprintf("encqmsg %d %d %d %s %s %d %s %s", uint64(q.MsgType), uint64(q.Height), uint64(q.Round), fmtBytes(q.Identifier),
+					fmtBytes(q.Root[:]), uint64(q.DataRound), ls(q.RoundChangeJustification), ls(q.PrepareJustification)))
+			}
 		case "signed":
 			enc = must(genSigned(r).MarshalSSZ())
 		case "psig":
